@@ -69,6 +69,19 @@ M = {
   ("jrpc2/client.go", "	seg.done = true", "	seg.filled = true")],
  "traces-merge-not-replace": ("jrpc2/client.go", "			tx.TraceActions = make([]eth.TraceAction, len(traces))\n			for i := range traces {\n				ta := traces[i].Action\n				ta.Idx = uint64(i)\n				tx.TraceActions[i] = ta\n			}", "			for i := range traces {\n				ta := traces[i].Action\n				ta.Idx = uint64(i)\n				tx.TraceActions = append(tx.TraceActions, ta)\n			}"),
  "traces-no-empty-check": ("jrpc2/client.go", "		if len(res.Result) == 0 {\n			return fmt.Errorf(\"no rpc error but empty result\")\n		}\n		for j := range res.Result {\n			if got := res.Result[j].BlockNum", "		for j := range res.Result {\n			if got := res.Result[j].BlockNum"),
+ # seeds/C03-d: the item's hash is written into the (shared, cached) block before the mismatch is reported
+ "sethash-writes-first": ("jrpc2/client.go", '''	if len(b.Header.Hash) > 0 && !bytes.Equal(b.Header.Hash, h) {
+		const tag = "block %d: hash mismatch. have: %.4x got: %.4x"
+		return fmt.Errorf(tag, uint64(b.Header.Number), []byte(b.Header.Hash), h)
+	}
+	b.Header.Hash.Write(h)
+	return nil''', '''	have := append([]byte(nil), b.Header.Hash...)
+	b.Header.Hash.Write(h)
+	if len(have) > 0 && !bytes.Equal(have, h) {
+		const tag = "block %d: hash mismatch. have: %.4x got: %.4x"
+		return fmt.Errorf(tag, uint64(b.Header.Number), have, h)
+	}
+	return nil'''),
  "prune-maxread-gt": ("jrpc2/client.go", "if v.nreads >= c.maxreads {", "if v.nreads > c.maxreads {"),
  "head-maxread-gt": ("jrpc2/client.go", "if nh.nreads >= nh.maxreads {", "if nh.nreads > nh.maxreads {"),
  "prune-lowest": ("jrpc2/client.go", "return keys[i].a > keys[j].a", "return keys[i].a < keys[j].a"),
